@@ -1,8 +1,8 @@
 (** C29 — executable model of guppylang_internals.diagnostic.DiagnosticsRenderer
     (render_diagnostic, render_snippet, wrap) and of the parts of span.py / CPython it
     uses (Loc.shift_left, Span constructor guard, Span.__len__, SourceMap.span_lines,
-    str(int), str.lstrip, str.splitlines, textwrap.wrap with break_long_words=False,
-    break_on_hyphens=False).  Hand-written; tied to the code by the differential harness
+    str(int), str.lstrip, str.splitlines, textwrap.wrap with its default options on text
+    without hyphen break points).  Hand-written; tied to the code by the differential harness
     props/C29 (X).  Definitions only — no proofs in this file.
 
     Strings are [list ascii].  The model is meant for ASCII text whose only line-break
@@ -133,8 +133,10 @@ Definition drop_last_blank (cur : list str) : list str :=
   | [] => cur
   end.
 
-(** [TextWrapper._wrap_chunks] with drop_whitespace=True, break_long_words=False,
-    max_lines=None, empty indents.  [first] = "no line emitted so far". *)
+(** [TextWrapper._wrap_chunks] with the defaults drop_whitespace=True, break_long_words=True,
+    max_lines=None, empty indents.  [first] = "no line emitted so far".  A chunk longer than
+    the width is cut by [_handle_long_word] ([chunk[:space_left]] goes on the current line).
+    Only faithful for text without hyphen break points (see [tw_wrap]). *)
 Fixpoint wrap_chunks (fuel : nat) (width : nat) (first : bool) (chs : list str) : list str :=
   match fuel with
   | O => []
@@ -147,7 +149,9 @@ Fixpoint wrap_chunks (fuel : nat) (width : nat) (first : bool) (chs : list str) 
       let '(cur2, rest2) :=
         match rest with
         | c :: r => if (width <? length c)%nat
-                    then match cur with [] => ([c], r) | _ => (cur, rest) end
+                    then let space_left := if (width <? 1)%nat then 1%nat
+                                           else (width - length (concat cur))%nat in
+                         (cur ++ [firstn space_left c], skipn space_left c :: r)
                     else (cur, rest)
         | [] => (cur, rest)
         end in
@@ -159,9 +163,13 @@ Fixpoint wrap_chunks (fuel : nat) (width : nat) (first : bool) (chs : list str) 
     end
   end.
 
-(** [textwrap.wrap(paragraph, width, break_long_words=False, break_on_hyphens=False)] *)
+(** [textwrap.wrap(paragraph, width)] (all defaults) for paragraphs in which no "-" is
+    directly followed by a letter, digit or "_": then [wordsep_re] (break_on_hyphens=True)
+    splits exactly like the whitespace-only [wordsep_simple_re], and [_handle_long_word]
+    finds no hyphen to break after... unless the long word itself contains "-": the
+    modelled domain therefore also requires that words longer than the width contain no "-". *)
 Definition tw_wrap (width : nat) (para : str) : list str :=
-  let chs := chunks (munge para) in wrap_chunks (S (length chs)) width true chs.
+  let chs := chunks (munge para) in wrap_chunks (S (length (concat chs))) width true chs.
 
 (** [diagnostic.wrap(text, width, initial_indent=ii, subsequent_indent=si)]; the result is
     never empty, so it is returned as (first, rest). *)
